@@ -254,3 +254,5 @@ func (tv TsV) Ion() ion.Timestamp {
 	}
 	return ion.NewTimestampWithFractionalSeconds(dt, prec, kind, uint8(len(tv.Frac)))
 }
+
+func bigFromInt64(i int64) *big.Int { return big.NewInt(i) }
